@@ -90,8 +90,38 @@ def runDec (entry opts rspec accu hex : String) : String :=
           else "-"
         s!"{outcomeTag out} {r'.pos} {renderGlobals out.st.glob} {dump}"
 
+def hex4 (n : Nat) : String :=
+  String.ofList [hexDigit ((n / 4096) % 16), hexDigit ((n / 256) % 16), hexDigit ((n / 16) % 16), hexDigit (n % 16)]
+
+/-- all 256 transitions out of one register state -/
+def runCrcRow (state : String) : String :=
+  match parseNat? state with
+  | none => "bad-state"
+  | some s =>
+    let c := BitVec.ofNat 16 s
+    String.join ((List.range 256).map fun b => hex4 (Crc.updateByte c (BitVec.ofNat 8 b)).toNat)
+
+/-- split `data` at the given cut positions -/
+def splitAt (data : Bytes) (cuts : List Nat) : List Bytes :=
+  let rec go (d : Bytes) (pos : Nat) : List Nat → List Bytes
+    | [] => [d]
+    | c :: cs => d.take (c - pos) :: go (d.drop (c - pos)) c cs
+  go data 0 cuts
+
+/-- streaming interface: New, Write parts, Sum16, Sum(nil), Reset, Sum16; and Checksum -/
+def runCrcSplit (cuts hex : String) : String :=
+  match unhex hex with
+  | none => "bad-hex"
+  | some data =>
+    let parts := splitAt data (if cuts == "-" then [] else parseNatList cuts '.')
+    let h := parts.foldl Crc.Hash.write Crc.Hash.new
+    s!"{h.sum16.toNat} {hexOf (h.sum [])} {(h.reset).sum16.toNat} {(Crc.checksum data).toNat}"
+
 def runLine (line : String) : String :=
   match splitOnChar line ' ' with
+  | ["crcrow", st] => runCrcRow st
+  | ["crcsplit", cuts, hex] => runCrcSplit cuts hex
+  | ["crcsplit", cuts] => runCrcSplit cuts ""
   | ["dec", entry, opts, rspec, accu, hex] => runDec entry opts rspec accu hex
   | ["dec", entry, opts, rspec, accu] => runDec entry opts rspec accu ""
   | _ => "bad-op"
